@@ -172,9 +172,10 @@ def check_props_file(pid, info: BuildInfo):
     Returns (obligations:[{name, ok, assumptions}], log)."""
     rel = f'Props/{pid}'
     names = theorem_names(rel)
-    deps_ok = info.translator_ok and not [f for f in info.failed_files if f in info._deps.get(rel + '.v', set())]
+    needs_gen = any(d.startswith('Gen/') for d in info._deps.get(rel + '.v', set()))
+    translator_ok = info.translator_ok or not needs_gen
     rc, out, err = sh(f'timeout 600 coqc -Q . MV -w -notation-overridden {rel}.v', cwd=COQ, timeout=700)
-    ok = rc == 0 and info.translator_ok
+    ok = rc == 0 and translator_ok
     # split Print Assumptions output per theorem (in file order of the Print commands)
     src = open(os.path.join(COQ, rel + '.v')).read()
     printed = re.findall(r'^Print Assumptions (\w+)\.', src, flags=re.M)
@@ -183,12 +184,12 @@ def check_props_file(pid, info: BuildInfo):
     ass = {n: (blocks[i] if i < len(blocks) else '?') for i, n in enumerate(printed)}
     obl = [{'name': n, 'ok': ok, 'assumptions': ass.get(n, 'not printed (Example / refutation)')} for n in names]
     log = (out + err)[-4000:]
-    if not info.translator_ok:
+    if not translator_ok:
         log = 'TRANSLATOR: ' + info.translator_msg + '\n' + log
     broken = []
     if not ok:
         broken = [f for f in info.failed_files if f in info._deps.get(rel + '.v', set()) or f == rel + '.v']
-        if not info.translator_ok: broken.insert(0, 'harness/py2coq.py (translator rejected the source)')
+        if not translator_ok: broken.insert(0, 'harness/py2coq.py (translator rejected the source)')
     return obl, log, broken
 
 
